@@ -92,4 +92,247 @@ theorem genIndicesGo_spec (n : Nat) : ∀ (ops : Ops) (shape : List Nat) (indice
           · simp at hd; subst hd; simpa using hc
         · simp [fail] at h
 
+theorem wf_scalar (o : Ops) : (⟨o, [], [], []⟩ : Res).WF := ⟨List.nodup_nil, by simp, rfl, by simp⟩
+
+theorem parseUnsignedInt_wf (t : Sub) (r : Res) (h : parseUnsignedInt t = .ok r) : r.WF := by
+  unfold parseUnsignedInt at h
+  split at h
+  · split at h
+    · simp [fail] at h
+    · simp at h; subst h; exact wf_scalar _
+  · simp [fail] at h
+
+theorem parseUnsignedFloat_wf (t : Sub) (r : Res) (h : parseUnsignedFloat t = .ok r) : r.WF := by
+  unfold parseUnsignedFloat at h
+  split at h
+  · simp at h; subst h; exact wf_scalar _
+  · simp [fail] at h
+
+theorem parseSignedInt_wf (t : Sub) (r : Res) (h : parseSignedInt t = .ok r) : r.WF := by
+  unfold parseSignedInt at h
+  split at h
+  · simp at h; subst h; exact wf_scalar _
+  · simp [fail] at h
+
+theorem mergeSummed_single (s : Sub) (a : List Char) : mergeSummed s [a] = .ok a := by
+  have : List.filter (fun _ : Char => false) a = [] := by simp
+  simp [mergeSummed, mergeSummedGo, this, minChar]
+
+theorem itemBody_wf (Γ : Ctx) (rec : Rec) (s : Sub) (a : Bool) (hrec : ∀ t r, rec t = .ok r → r.WF)
+    (r : Res) (h : itemBody Γ rec s a = .ok r) : r.WF := by
+  unfold itemBody at h
+  simp only [] at h
+  split at h
+  · simp at h
+  · split at h
+    · split at h
+      · simp [fail] at h
+      · split at h
+        · rename_i r' hr; simp at h; subst h; exact parseUnsignedInt_wf _ _ hr
+        · split at h
+          · rename_i r' hr; simp at h; subst h; exact parseUnsignedFloat_wf _ _ hr
+          · simp at h
+    · split at h
+      · simp [fail2] at h
+      · split at h
+        · simp [fail2] at h
+        · split at h
+          · simp [fail] at h
+          · split at h
+            · -- variable or call
+              obtain ⟨b, hb, h⟩ := bind_ok h
+              obtain ⟨g, hg, h⟩ := bind_ok h
+              have hbase : b.shape.length = b.indices.length + ((s.trim.partitionScope.head.partition [.lit ['_']]).2.2).len
+                  ∧ (∀ c ∈ b.indices, 'a' ≤ c ∧ c ≤ 'z') := by
+                split at hb
+                · split at hb
+                  · simp [fail] at hb
+                  · split at hb
+                    · simp [fail] at hb
+                    · rename_i hlen
+                      simp at hb; subst hb
+                      simp at hlen; simp [hlen]
+                · split at hb
+                  · obtain ⟨arg, harg, hb⟩ := bind_ok hb
+                    have hw := hrec _ _ harg
+                    split at hb
+                    · simp [fail] at hb
+                    · split at hb
+                      · simp [fail] at hb
+                      · rename_i hlen
+                        simp at hb; subst hb
+                        simp at hlen
+                        refine ⟨by simp [hw.shape, hlen], hw.letters⟩
+                  · simp at hb
+              obtain ⟨h1, h2⟩ := genIndicesGo_spec _ _ _ _ _ _ rfl hg hbase.1 hbase.2
+              exact trace_wf _ _ _ _ _ _ h1 h2 h
+            · split at h
+              · obtain ⟨r', hr', h⟩ := bind_ok h
+                simp at h; subst h
+                have := hrec _ _ hr'; exact ⟨this.nodup, this.disjoint, this.shape, this.letters⟩
+              · split at h
+                · obtain ⟨r', hr', h⟩ := bind_ok h
+                  simp at h; subst h
+                  have := hrec _ _ hr'; exact ⟨this.nodup, this.disjoint, this.shape, this.letters⟩
+                · split at h
+                  · obtain ⟨r', hr', h⟩ := bind_ok h
+                    simp at h; subst h
+                    have := hrec _ _ hr'; exact ⟨this.nodup, this.disjoint, this.shape, this.letters⟩
+                  · simp at h
+
+theorem wf_with_summed (b : Res) (hb : b.WF) (o : Ops) (summed : List Char) (hd : ∀ c ∈ b.indices, c ∉ summed) :
+    (⟨o, b.shape, b.indices, summed⟩ : Res).WF := ⟨hb.nodup, hd, hb.shape, hb.letters⟩
+
+theorem powerBody_wf (Γ : Ctx) (rec : Rec) (s : Sub) (a : Bool) (hrec : ∀ t r, rec t = .ok r → r.WF)
+    (r : Res) (h : powerBody Γ rec s a = .ok r) : r.WF := by
+  unfold powerBody at h
+  simp only [] at h
+  split at h
+  · exact itemBody_wf Γ rec _ a hrec r h
+  · split at h
+    · simp [fail] at h
+    · split at h
+      · simp [fail] at h
+      · obtain ⟨base, hbase, h⟩ := bind_ok h
+        obtain ⟨ex, _, h⟩ := bind_ok h
+        split at h
+        · simp [fail] at h
+        · obtain ⟨summed, _, h⟩ := bind_ok h
+          obtain ⟨u, hv, h⟩ := bind_ok h
+          simp at h; subst h
+          exact wf_with_summed base (itemBody_wf Γ rec _ a hrec base hbase) _ _ (verify_ok _ _ _ hv)
+  · simp [fail] at h
+
+theorem mapMIdx_mem {α β : Type} (f : Nat → α → P β) (l : List α) : ∀ (k : Nat) (out : List β),
+    mapMIdx f l k = .ok out → ∀ b ∈ out, ∃ i a, a ∈ l ∧ f i a = .ok b := by
+  induction l with
+  | nil => intro k out h b hb; simp [mapMIdx] at h; subst h; simp at hb
+  | cons x xs ih =>
+    intro k out h b hb
+    simp only [mapMIdx] at h
+    obtain ⟨y, hy, h⟩ := bind_ok h
+    obtain ⟨ys, hys, h⟩ := bind_ok h
+    simp at h; subst h
+    rcases List.mem_cons.mp hb with e | hb
+    · subst e; exact ⟨k, x, List.mem_cons_self, hy⟩
+    · obtain ⟨i, a, ha, hf⟩ := ih _ _ hys b hb
+      exact ⟨i, a, List.mem_cons_of_mem _ ha, hf⟩
+
+theorem flatten_shape_len (parts : List Res) (h : ∀ r ∈ parts, r.WF) :
+    (parts.map (·.shape)).flatten.length = (parts.map (·.indices)).flatten.length := by
+  induction parts with
+  | nil => rfl
+  | cons r rs ih =>
+    simp only [List.map_cons, List.flatten_cons, List.length_append]
+    rw [(h r List.mem_cons_self).shape, ih (fun x hx => h x (List.mem_cons_of_mem _ hx))]
+
+theorem termBody_wf (Γ : Ctx) (rec : Rec) (s : Sub) (hrec : ∀ t r, rec t = .ok r → r.WF)
+    (r : Res) (h : termBody Γ rec s = .ok r) : r.WF := by
+  unfold termBody at h
+  simp only [] at h
+  split at h
+  · exact powerBody_wf Γ rec s true hrec r h
+  · obtain ⟨parts, hparts, h⟩ := bind_ok h
+    have hall : ∀ x ∈ parts, x.WF := by
+      intro x hx
+      obtain ⟨i, p, _, hf⟩ := mapMIdx_mem _ _ _ _ hparts x hx
+      exact powerBody_wf Γ rec p _ hrec x hf
+    split at h
+    · simp at h; subst h; exact hall _ (by simp)
+    · refine trace_wf _ _ _ _ _ _ (flatten_shape_len parts hall) ?_ h
+      intro c hc
+      simp only [List.mem_flatten, List.mem_map] at hc
+      obtain ⟨l, ⟨x, hx, rfl⟩, hc⟩ := hc
+      exact (hall x hx).letters c hc
+
+theorem fractionBody_wf (Γ : Ctx) (rec : Rec) (s : Sub) (hrec : ∀ t r, rec t = .ok r → r.WF)
+    (r : Res) (h : fractionBody Γ rec s = .ok r) : r.WF := by
+  unfold fractionBody at h
+  split at h
+  · exact termBody_wf Γ rec _ hrec r h
+  · obtain ⟨num, hnum, h⟩ := bind_ok h
+    obtain ⟨den, _, h⟩ := bind_ok h
+    split at h
+    · simp [fail] at h
+    · obtain ⟨summed, _, h⟩ := bind_ok h
+      obtain ⟨u, hv, h⟩ := bind_ok h
+      simp at h; subst h
+      exact wf_with_summed num (termBody_wf Γ rec _ hrec num hnum) _ _ (verify_ok _ _ _ hv)
+  · simp [fail] at h
+
+theorem minChar_none (l : List Char) (h : minChar l = none) : l = [] := by
+  cases l with
+  | nil => rfl
+  | cons c cs => simp only [minChar] at h; split at h <;> simp at h
+
+theorem charsMinus_none (a b : List Char) (h : charsMinus a b = none) : ∀ c ∈ a, c ∈ b := by
+  intro c hc
+  have := minChar_none _ h
+  rw [List.filter_eq_nil_iff] at this
+  simpa using this c hc
+
+theorem alignGo_disjoint (sFirst : Sub) (shape : List Nat) (indices : List Char) (rest : List (Bool × Sub × Res)) :
+    ∀ (iterm : Nat) (negs : List Bool) (args : List Ops) (summed : List Char) (out : List Bool × List Ops × List Char),
+    alignGo sFirst shape indices rest iterm negs args summed = .ok out →
+    (∀ x ∈ rest, x.2.2.WF) → (∀ c ∈ indices, c ∉ summed) → ∀ c ∈ indices, c ∉ out.2.2 := by
+  induction rest with
+  | nil => intro iterm negs args summed out h _ hd; simp [alignGo] at h; subst h; exact hd
+  | cons x xs ih =>
+    intro iterm negs args summed out h hw hd
+    obtain ⟨neg, sTerm, r⟩ := x
+    simp only [alignGo] at h
+    have hr : r.WF := hw _ List.mem_cons_self
+    split at h
+    · simp at h
+    · rename_i ops tshape hal
+      split at h
+      · simp [fail2] at h
+      · refine ih _ _ _ _ _ h (fun y hy => hw y (List.mem_cons_of_mem _ hy)) ?_
+        intro c hc hcs
+        rcases List.mem_append.mp hcs with hcs | hcs
+        · exact hd c hc hcs
+        · have hcr : c ∈ r.indices := by
+            unfold alignTerm at hal
+            split at hal
+            · split at hal
+              · simp [fail2] at hal
+              · rename_i hm
+                exact charsMinus_none _ _ hm c hc
+            · rename_i he; simp at he; rw [he]; exact hc
+          exact hr.disjoint c hcr hcs
+
+theorem exprBody_wf (Γ : Ctx) (rec : Rec) (s : Sub) (hrec : ∀ t r, rec t = .ok r → r.WF)
+    (r : Res) (h : exprBody Γ rec s = .ok r) : r.WF := by
+  unfold exprBody at h
+  simp only [] at h
+  obtain ⟨un, hun, h⟩ := bind_ok h
+  have hall : ∀ x ∈ un, x.2.2.WF := by
+    intro x hx
+    obtain ⟨i, p, _, hf⟩ := mapMIdx_mem _ _ _ _ hun x hx
+    obtain ⟨r', hr', hf⟩ := bind_ok hf
+    simp at hf; subst hf
+    exact fractionBody_wf Γ rec _ hrec r' hr'
+  unfold exprCombine at h
+  split at h
+  · simp [fail] at h
+  · rename_i neg sFirst first rest
+    have hf : first.WF := hall (neg, sFirst, first) List.mem_cons_self
+    split at h
+    · simp at h; subst h; exact hf
+    · obtain ⟨a, ha, h⟩ := bind_ok h
+      simp at h; subst h
+      exact wf_with_summed first hf _ _
+        (alignGo_disjoint _ _ _ _ _ _ _ _ _ ha (fun y hy => hall y (List.mem_cons_of_mem _ hy)) hf.disjoint)
+
+/-- for every string and every amount of fuel: a successful parse returns well-formed bookkeeping -/
+theorem parseExprB_wf (Γ : Ctx) (base : Rec) (hbase : ∀ t r, base t = .ok r → r.WF) :
+    ∀ (n : Nat) (s : Sub) (r : Res), parseExprB Γ base n s = .ok r → r.WF := by
+  intro n
+  induction n with
+  | zero => intro s r h; exact hbase s r h
+  | succ n ih => intro s r h; exact exprBody_wf Γ _ s (fun t r' h' => ih t r' h') r h
+
+theorem parseExpr_wf (Γ : Ctx) (n : Nat) (s : Sub) (r : Res) (h : parseExpr Γ n s = .ok r) : r.WF :=
+  parseExprB_wf Γ _ (fun _ _ h => by simp at h) n s r h
+
 end NutilsVerif.C19
